@@ -1,38 +1,189 @@
 (* C09 -- existing outputs are never overwritten and _SUCCESS marks only complete saves.
    Only statements, each closed by [exact] of a lemma from PV.Proofs.Save.
-   [save A render sv p m xs s]: the saver [sv] (text / pickle, interpreting the step list regenerated from
-   rdd.py) on partitions [xs] rendered by [render], under fault plan [p] with max_retries [m], from state [s]. *)
+
+   [save A render sv p m xs s]: the saver [sv] (SvText / SvPickle; Model/Save.v interprets the statement
+   order regenerated from rdd.py into Gen/SaveOrder.v) on the partitions [xs], partition [x] being written
+   as the bytes [render x], with max_retries [m], under the fault plan [p]:
+     [wf p k]   = how the k-th call of Local.dump fails (None: it does not) -- before anything, after the
+                  directory was made, or torn after j bytes;
+     [cf p i a] = the computation of partition i fails on attempt a.
+   [init_st f0 c0 lk]: target path in state [f0] (FAbsent | FFile bytes | FDir entries), [c0] dump calls made
+   so far on this context, job lock [lk].  The result is (Ok tt | Err exception, final state); [s_hist] of the
+   final state lists the file system after every dump call (every prefix of the effect sequence).
+   Every theorem quantifies over ALL plans, partition lists, retry counts and call offsets. *)
 From Coq Require Import List Bool Arith NArith.
 Require Import PV.Gen.SaveOrder PV.Model.Save PV.Proofs.Save.
 Import ListNotations.
 
-(* An existing target (file, directory, empty directory -- anything): FileAlreadyExistsException, and the
-   whole state is EQUAL to the initial one: same file system, no dump call even attempted, lock untouched. *)
+(* ---- clause 1: an existing target is refused before anything is written or modified ----
+   Target exists as a file, a directory or an empty directory (anything but absent): the result is
+   FileAlreadyExistsException and the WHOLE state is equal to the initial one -- same file system, no dump
+   call was even attempted (call counter and history unchanged), lock untouched. *)
 Theorem C09_no_overwrite : forall A render sv p m xs f0 c0 lk,
   fs_exists f0 = true ->
   save A render sv p m xs (init_st f0 c0 lk) = (Err EExists, init_st f0 c0 lk).
 Proof. exact no_overwrite. Qed.
 
-(* Invariant over every prefix of the effect sequence: in every state the file system goes through (after
-   each dump call, failed or not) and in the final one, the marker is present only on the complete directory. *)
+(* ---- clause 2: the marker is written only after every partition file ----
+   Invariant over every prefix of the effect sequence: in every state the target goes through and in the final
+   one, if _SUCCESS is there then the directory is exactly the complete one (and the save is multi-partition). *)
 Theorem C09_marker_implies_complete : forall A render sv p m xs c0 r s',
   save A render sv p m xs (init_st FAbsent c0 false) = (r, s') ->
   forall f, In f (s_hist s' ++ [s_fs s']) -> child f NMarker <> None ->
   f = complete_dir A render xs /\ length xs <> 1.
 Proof. exact marker_implies_complete. Qed.
+(* ... and the complete directory holds, for every i, the final content of partition i and no other part file *)
 Theorem C09_complete_dir_parts : forall A render xs i,
   child (complete_dir A render xs) (NPart i) = option_map render (nth_error xs i).
 Proof. exact complete_dir_parts. Qed.
 
-(* A failed save leaves no marker -- for every fault plan; the only exception is a torn write of the marker
-   file itself (created, then the write raises), and then every part file is complete. *)
+(* ---- "if the save fails at any point the marker is absent" ----
+   For every fault plan.  The one exception is a torn write of the marker file itself (the file was created,
+   then the write raised: an empty file cannot be half-written); then every part file is complete. *)
 Theorem C09_failure_no_marker : forall A render sv p m xs c0 e s',
   save A render sv p m xs (init_st FAbsent c0 false) = (Err e, s') ->
   child (s_fs s') NMarker = None
   \/ (s_fs s' = complete_dir A render xs /\ e = EWrite /\ exists j, wf p (pred (s_calls s')) = Some (WTorn j)).
 Proof. exact failure_no_marker. Qed.
+(* when failed writes leave no file behind (before / after mkdir), without exception: *)
 Theorem C09_failure_no_marker_atomic : forall A render sv p m xs c0 e s',
   (forall k j, wf p k <> Some (WTorn j)) ->
   save A render sv p m xs (init_st FAbsent c0 false) = (Err e, s') ->
   child (s_fs s') NMarker = None.
 Proof. exact failure_no_marker_atomic. Qed.
+
+(* ---- "the error reaches the caller" ---- *)
+(* a save that returns normally has produced the complete output (one file, or all parts + marker) *)
+Theorem C09_ok_implies_complete : forall A render sv p m xs c0 s',
+  save A render sv p m xs (init_st FAbsent c0 false) = (Ok tt, s') ->
+  s_fs s' = match xs with [x] => FFile (render x) | _ => complete_dir A render xs end.
+Proof. exact ok_implies_complete. Qed.
+(* what the caller sees is the injected fault itself, never another exception *)
+Theorem C09_failure_is_injected_fault : forall A render sv p m xs f0 c0 e s',
+  1 <= m ->
+  save A render sv p m xs (init_st f0 c0 false) = (Err e, s') ->
+  (e = EExists /\ fs_exists f0 = true)
+  \/ (e = EWrite /\ exists k, wf p k <> None)
+  \/ (e = ECompute /\ exists i a, cf p i a = true).
+Proof. exact failure_is_injected_fault. Qed.
+(* crash plan "the computation of partition i fails on every attempt" (whatever else the plan contains) *)
+Theorem C09_compute_failure_surfaces : forall A render sv p m xs c0 i r s',
+  1 <= m -> i < length xs -> (forall a, 1 <= a <= m -> cf p i a = true) ->
+  save A render sv p m xs (init_st FAbsent c0 false) = (r, s') ->
+  exists e, r = Err e /\ (e = ECompute \/ e = EWrite) /\ child (s_fs s') NMarker = None.
+Proof. exact compute_failure_surfaces. Qed.
+(* crash plan "the k-th file write fails" (k < n: on each of its max_retries attempts) *)
+Theorem C09_write_failure_surfaces_part : forall A render sv p m xs c0 k r s',
+  1 <= m -> length xs <> 1 -> k < length xs -> (forall i a, cf p i a = false) ->
+  (forall k', c0 <= k' < c0 + k -> wf p k' = None) ->
+  (forall k', c0 + k <= k' < c0 + k + m -> wf p k' <> None) ->
+  save A render sv p m xs (init_st FAbsent c0 false) = (r, s') ->
+  r = Err EWrite /\ s_calls s' = c0 + k + m /\ child (s_fs s') NMarker = None.
+Proof. exact write_failure_surfaces_part. Qed.
+(* k = n: the marker write fails (it is not retried); all part files are there *)
+Theorem C09_write_failure_surfaces_marker : forall A render sv p m xs c0 r s',
+  1 <= m -> length xs <> 1 -> (forall i a, cf p i a = false) ->
+  (forall k', c0 <= k' < c0 + length xs -> wf p k' = None) ->
+  wf p (c0 + length xs) <> None ->
+  save A render sv p m xs (init_st FAbsent c0 false) = (r, s') ->
+  r = Err EWrite /\ s_calls s' = c0 + length xs + 1 /\
+  forall i x, nth_error xs i = Some x -> child (s_fs s') (NPart i) = Some (render x).
+Proof. exact write_failure_surfaces_marker. Qed.
+(* single-partition save: its one write fails *)
+Theorem C09_write_failure_surfaces_single : forall A render sv p m x c0 r s',
+  1 <= m -> (forall a, cf p 0 a = false) -> wf p c0 <> None ->
+  save A render sv p m [x] (init_st FAbsent c0 false) = (r, s') ->
+  r = Err EWrite /\ s_calls s' = S c0.
+Proof. exact write_failure_surfaces_single. Qed.
+
+(* ---- "and the context remains usable" ----
+   After ANY save (successful, refused, failed anywhere) started with the lock free, the lock is free and a
+   later job on the same context runs.  Depends on the regenerated [runjob_lock_release = ReleaseFinally]. *)
+Theorem C09_context_usable_after_failed_save : forall A render sv p m xs f0 c0 r s',
+  save A render sv p m xs (init_st f0 c0 false) = (r, s') ->
+  s_locked s' = false /\
+  forall (B : Type) p2 m2 (ys : list B), 1 <= m2 -> (forall j a, cf p2 j a = false) ->
+    collect_job B p2 m2 ys s' = (Ok tt, s').
+Proof. exact context_usable_after_save. Qed.
+
+(* ---- clause 3: a directory that carries the marker reads back every partition's data in partition order ----
+   [decode] is any decoder that inverts [render] ([items x] = the elements of partition x). *)
+Theorem C09_read_marked_dir : forall A render B items decode,
+  (forall x : A, decode (render x) = Ok (items x)) ->
+  forall sv p m xs c0 r s',
+  save A render sv p m xs (init_st FAbsent c0 false) = (r, s') ->
+  forall f, In f (s_hist s' ++ [s_fs s']) -> child f NMarker <> None ->
+  read_target B decode f = Ok (concat (map items xs)).
+Proof. exact read_marked_dir. Qed.
+(* the text saver with the text reader: elements without a line break *)
+Theorem C09_read_marked_dir_text : forall p m (xs : list (list bytes)) c0 r s',
+  Forall (Forall (fun l => ~ In nl l)) xs ->
+  save (list bytes) render_text SvText p m xs (init_st FAbsent c0 false) = (r, s') ->
+  forall f, In f (s_hist s' ++ [s_fs s']) -> child f NMarker <> None ->
+  read_target bytes decode_text f = Ok (concat xs).
+Proof. exact read_marked_dir_text. Qed.
+
+(* ---- the tie to the source: these fail when the statement order of the savers / of runJob changes ---- *)
+Theorem C09_text_order : text_steps = [SCheckExists; SSingle; SRunJob; SMarker].
+Proof. exact text_steps_link. Qed.
+Theorem C09_pickle_order : pickle_steps = [SCheckExists; SSingle; SRunJob; SMarker].
+Proof. exact pickle_steps_link. Qed.
+Theorem C09_lock_released_in_finally : runjob_lock_release = ReleaseFinally.
+Proof. exact lock_release_link. Qed.
+
+(* ---------------- non-vacuity: concrete instances of every hypothesis ---------------- *)
+Definition ex_parts : list (list bytes) := [[[97%N]]; [[98%N]; []]; []].     (* ['a'] ['b', ''] [] *)
+Definition plan_w (l : list (nat * wfault)) : plan :=
+  mkplan (fun k => match find (fun e => Nat.eqb (fst e) k) l with Some e => Some (snd e) | None => None end)
+         (fun _ _ => false).
+Definition plan_c (l : list (nat * nat)) : plan :=
+  mkplan (fun _ => None) (fun i a => existsb (fun e => Nat.eqb (fst e) i && Nat.eqb (snd e) a) l).
+Definition run_text p m xs f0 := save (list bytes) render_text SvText p m xs (init_st f0 0 false).
+
+(* the three pre-states of the property all satisfy the hypothesis of C09_no_overwrite *)
+Example pre_states_exist :
+  fs_exists (FFile [111%N]) = true /\ fs_exists (FDir [(NOther 0, [1%N])]) = true /\ fs_exists (FDir []) = true.
+Proof. repeat split. Qed.
+(* a clean three-partition save: the marker is there, on the complete directory, and reads back in order *)
+Example clean_save :
+  let '(r, s) := run_text no_faults 3 ex_parts FAbsent in
+  r = Ok tt /\ child (s_fs s) NMarker = Some [] /\ s_fs s = complete_dir _ render_text ex_parts /\
+  read_target bytes decode_text (s_fs s) = Ok [[97%N]; [98%N]; []] /\ length (s_hist s) = 4.
+Proof. vm_compute. repeat split. Qed.
+(* a fault masked by the retry: part 1 is torn on its first attempt, rewritten on the second *)
+Example masked_fault :
+  let '(r, s) := run_text (plan_w [(1, WTorn 1)]) 2 ex_parts FAbsent in
+  r = Ok tt /\ s_calls s = 5 /\ nth_error (s_hist s) 1 = Some (FDir [(NPart 0, [97; 10]%N); (NPart 1, [98%N])]) /\
+  s_fs s = complete_dir _ render_text ex_parts.
+Proof. vm_compute. repeat split. Qed.
+(* crash at the write of part 1 on every attempt: hypotheses of C09_write_failure_surfaces_part with k = 1, m = 2 *)
+Example crash_part :
+  let '(r, s) := run_text (plan_w [(1, WMkdir); (2, WBefore)]) 2 ex_parts FAbsent in
+  r = Err EWrite /\ s_fs s = FDir [(NPart 0, [97; 10]%N)] /\ s_calls s = 3 /\ s_locked s = false.
+Proof. vm_compute. repeat split. Qed.
+(* crash at the marker write (k = n) *)
+Example crash_marker :
+  let '(r, s) := run_text (plan_w [(3, WBefore)]) 2 ex_parts FAbsent in
+  r = Err EWrite /\ child (s_fs s) NMarker = None /\ child (s_fs s) (NPart 2) = Some [] /\ s_calls s = 4.
+Proof. vm_compute. repeat split. Qed.
+(* the exception in C09_failure_no_marker is real: a torn marker write leaves the (empty = complete) marker *)
+Example torn_marker_write :
+  let '(r, s) := run_text (plan_w [(3, WTorn 0)]) 2 ex_parts FAbsent in
+  r = Err EWrite /\ child (s_fs s) NMarker = Some [] /\ s_fs s = complete_dir _ render_text ex_parts.
+Proof. vm_compute. repeat split. Qed.
+(* partition 1 fails to compute on every attempt: hypotheses of C09_compute_failure_surfaces *)
+Example crash_compute :
+  let '(r, s) := run_text (plan_c [(1, 1); (1, 2)]) 2 ex_parts FAbsent in
+  r = Err ECompute /\ s_fs s = FDir [(NPart 0, [97; 10]%N)] /\ s_locked s = false /\
+  fst (collect_job nat no_faults 3 [0; 1] s) = Ok tt.
+Proof. vm_compute. repeat split. Qed.
+(* single partition: one file, never a marker *)
+Example single_partition :
+  let '(r, s) := run_text no_faults 3 [[[97%N]; [98%N]]] FAbsent in
+  r = Ok tt /\ s_fs s = FFile [97; 10; 98; 10]%N /\ s_calls s = 1.
+Proof. vm_compute. repeat split. Qed.
+(* re-saving over a previous complete save changes nothing *)
+Example resave_refused :
+  let f0 := complete_dir _ render_text ex_parts in
+  run_text no_faults 3 [[[99%N]]; []] f0 = (Err EExists, init_st f0 0 false).
+Proof. vm_compute. reflexivity. Qed.
